@@ -165,3 +165,278 @@ theorem mem_within_iff (es : List (Nat × Nat)) (a b k : Nat) : b ∈ within es 
       | step hw hn => right; exact ⟨_, (ih _).mpr hw, hn⟩
 
 end PolyplyVerif.C10M
+
+namespace PolyplyVerif.C10M
+
+/-! ### breadth-first levels are complete; walks project onto the residue graph -/
+
+theorem dedup_nodup {α : Type} [BEq α] [LawfulBEq α] (l : List α) : (dedup l).Nodup := by
+  induction l with
+  | nil => simp [dedup]
+  | cons x xs ih =>
+    simp only [dedup, List.nodup_cons]
+    refine ⟨?_, List.Nodup.sublist List.filter_sublist ih⟩
+    intro h
+    have := (List.mem_filter.mp h).2
+    simp at this
+
+theorem within_nodup (es : List (Nat × Nat)) (a k : Nat) : (within es a k).Nodup := by
+  cases k with
+  | zero => simp [within]
+  | succ k => exact dedup_nodup _
+
+theorem within_subset_succ (es : List (Nat × Nat)) (a k : Nat) : within es a k ⊆ within es a (k + 1) := by
+  intro x hx
+  exact (mem_within_iff es a x (k + 1)).mpr ((mem_within_iff es a x k).mp hx).mono
+
+theorem within_mono (es : List (Nat × Nat)) (a j k : Nat) (h : j ≤ k) : within es a j ⊆ within es a k := by
+  induction h with
+  | refl => exact fun x hx => hx
+  | step _ ih => exact fun x hx => within_subset_succ es a _ (ih hx)
+
+/-- a level that adds nothing is closed: it contains everything reachable by any walk -/
+theorem closed_contains_all (es : List (Nat × Nat)) (a j : Nat) (hclosed : within es a (j + 1) ⊆ within es a j)
+    (b k : Nat) (hw : WalkLe es a b k) : b ∈ within es a j := by
+  induction hw with
+  | refl k => exact within_mono es a 0 j (Nat.zero_le j) (by simp [within])
+  | step _ hn ih =>
+    apply hclosed
+    exact (mem_within_iff es a _ (j + 1)).mpr (WalkLe.step ((mem_within_iff es a _ j).mp ih) hn)
+
+theorem grow_or_closed (es : List (Nat × Nat)) (a k : Nat) :
+    (∃ j, j ≤ k ∧ within es a (j + 1) ⊆ within es a j) ∨ k + 1 ≤ (within es a k).length := by
+  induction k with
+  | zero => right; simp [within]
+  | succ k ih =>
+    rcases ih with ⟨j, hj, hc⟩ | hlen
+    · exact Or.inl ⟨j, Nat.le_succ_of_le hj, hc⟩
+    · by_cases hsub : within es a (k + 1) ⊆ within es a k
+      · exact Or.inl ⟨k, Nat.le_succ k, hsub⟩
+      · right
+        -- some x is new at level k+1
+        have : ∃ x, x ∈ within es a (k + 1) ∧ x ∉ within es a k := by
+          apply Classical.byContradiction
+          intro hno
+          apply hsub
+          intro x hx
+          apply Classical.byContradiction
+          intro hx'
+          exact hno ⟨x, hx, hx'⟩
+        obtain ⟨x, hx1, hx2⟩ := this
+        have hnd : (x :: within es a k).Nodup := List.nodup_cons.mpr ⟨hx2, within_nodup es a k⟩
+        have hss : (x :: within es a k) ⊆ within es a (k + 1) := by
+          intro y hy
+          rcases List.mem_cons.mp hy with h | h
+          · rw [h]; exact hx1
+          · exact within_subset_succ es a k h
+        have := List.Nodup.length_le_of_subset hnd hss
+        simp only [List.length_cons] at this
+        omega
+
+theorem within_subset_nodes (nodes : List Nat) (es : List (Nat × Nat)) (a : Nat) (ha : a ∈ nodes)
+    (hes : ∀ e ∈ es, e.1 ∈ nodes ∧ e.2 ∈ nodes) (k : Nat) : within es a k ⊆ nodes := by
+  intro x hx
+  have hw := (mem_within_iff es a x k).mp hx
+  clear hx
+  induction hw with
+  | refl k => exact ha
+  | @step c c' k' _ hn _ =>
+    unfold neighbors at hn
+    obtain ⟨e, he, h⟩ := List.mem_filterMap.mp hn
+    by_cases h1 : e.1 == c
+    · simp only [h1, if_true, Option.some.injEq] at h; rw [← h]; exact (hes e he).2
+    · simp only [h1, Bool.false_eq_true, if_false] at h
+      by_cases h2 : e.2 == c
+      · simp only [h2, if_true, Option.some.injEq] at h; rw [← h]; exact (hes e he).1
+      · simp [h2] at h
+
+/-- **BFS levels are complete**: with `n` nodes, whatever is reachable by a walk of any length is
+reached within `n` levels. -/
+theorem within_complete (nodes : List Nat) (es : List (Nat × Nat)) (a : Nat) (ha : a ∈ nodes)
+    (hes : ∀ e ∈ es, e.1 ∈ nodes ∧ e.2 ∈ nodes) (b k : Nat) (hw : WalkLe es a b k) :
+    b ∈ within es a nodes.length := by
+  rcases grow_or_closed es a nodes.length with ⟨j, hj, hc⟩ | hlen
+  · exact within_mono es a j nodes.length hj (closed_contains_all es a j hc b k hw)
+  · have := List.Nodup.length_le_of_subset (within_nodup es a nodes.length) (within_subset_nodes nodes es a ha hes nodes.length)
+    omega
+
+/-- `isConnected` says what `nx.is_connected` says: the graph has a node and every node is reachable from the first one -/
+theorem isConnected_iff (nodes : List Nat) (es : List (Nat × Nat)) (hes : ∀ e ∈ es, e.1 ∈ nodes ∧ e.2 ∈ nodes) :
+    isConnected nodes es = true ↔ ∃ a rest, nodes = a :: rest ∧ ∀ b ∈ nodes, ∃ k, WalkLe es a b k := by
+  cases nodes with
+  | nil => simp [isConnected]
+  | cons a rest =>
+    simp only [isConnected, List.all_eq_true, List.contains_iff_mem]
+    constructor
+    · intro h
+      exact ⟨a, rest, rfl, fun b hb => ⟨_, (mem_within_iff es a b _).mp (h b hb)⟩⟩
+    · rintro ⟨a', rest', heq, h⟩ b hb
+      obtain ⟨h1, h2⟩ := List.cons.inj heq
+      subst h1
+      obtain ⟨k, hk⟩ := h b hb
+      exact within_complete (a :: rest) es a List.mem_cons_self hes b k hk
+
+
+theorem resOf_mem_residues (m : Mol) (a : Nat) (r : Int × String) (h : m.resOf a = some r) : r ∈ m.residues := by
+  unfold Mol.resOf at h
+  simp only [Option.map_eq_some_iff] at h
+  obtain ⟨x, hx, hr⟩ := h
+  unfold Mol.residues
+  rw [mem_dedup]
+  exact List.mem_map.mpr ⟨x, List.mem_of_find?_eq_some hx, hr⟩
+
+theorem mem_neighbors_of_edge (es : List (Nat × Nat)) (u v : Nat) (h : (u, v) ∈ es) :
+    v ∈ neighbors es u ∧ u ∈ neighbors es v := by
+  unfold neighbors
+  constructor
+  · exact List.mem_filterMap.mpr ⟨(u, v), h, by simp⟩
+  · refine List.mem_filterMap.mpr ⟨(u, v), h, ?_⟩
+    by_cases huv : u == v
+    · have : u = v := eq_of_beq huv
+      simp [this]
+    · simp [huv]
+
+/-- an atom-level step is a residue-level step or stays inside a residue -/
+theorem res_step (m : Mol) (c c' : Nat) (rc rc' : Int × String) (hn : c' ∈ neighbors m.edges c)
+    (hc : m.resOf c = some rc) (hc' : m.resOf c' = some rc') :
+    rc = rc' ∨ m.residues.idxOf rc' ∈ neighbors m.resEdges (m.residues.idxOf rc) := by
+  by_cases heq : rc = rc'
+  · exact Or.inl heq
+  · right
+    unfold neighbors at hn
+    obtain ⟨e, he, h⟩ := List.mem_filterMap.mp hn
+    have hne : (rc == rc') = false := by simpa using heq
+    have hne' : (rc' == rc) = false := by simpa using (fun h => heq h.symm)
+    by_cases h1 : e.1 == c
+    · simp only [h1, if_true, Option.some.injEq] at h
+      have e1 : e.1 = c := eq_of_beq h1
+      have hmem : (m.residues.idxOf rc, m.residues.idxOf rc') ∈ m.resEdges := by
+        unfold Mol.resEdges
+        refine List.mem_filterMap.mpr ⟨e, he, ?_⟩
+        rw [e1, h, hc, hc']
+        simp [hne]
+      exact (mem_neighbors_of_edge _ _ _ hmem).1
+    · simp only [h1, Bool.false_eq_true, if_false] at h
+      by_cases h2 : e.2 == c
+      · simp only [h2, if_true, Option.some.injEq] at h
+        have e2 : e.2 = c := eq_of_beq h2
+        have hmem : (m.residues.idxOf rc', m.residues.idxOf rc) ∈ m.resEdges := by
+          unfold Mol.resEdges
+          refine List.mem_filterMap.mpr ⟨e, he, ?_⟩
+          rw [e2, h, hc, hc']
+          simp [hne']
+        exact (mem_neighbors_of_edge _ _ _ hmem).2
+      · simp [h2] at h
+
+/-- an atom-level walk projects to a residue-level walk that is not longer -/
+theorem res_walk_of_atom_walk (m : Mol) (hall : ∀ e ∈ m.edges, (m.resOf e.1).isSome ∧ (m.resOf e.2).isSome)
+    (a b k : Nat) (ra : Int × String) (ha : m.resOf a = some ra) (hw : WalkLe m.edges a b k) :
+    ∃ rb, m.resOf b = some rb ∧ WalkLe m.resEdges (m.residues.idxOf ra) (m.residues.idxOf rb) k := by
+  induction hw with
+  | refl k => exact ⟨ra, ha, WalkLe.refl k⟩
+  | @step c c' k' _ hn ih =>
+    obtain ⟨rc, hrc, hwc⟩ := ih
+    -- c' is an endpoint of an edge, so it has a residue
+    have hc' : (m.resOf c').isSome := by
+      unfold neighbors at hn
+      obtain ⟨e, he, h⟩ := List.mem_filterMap.mp hn
+      by_cases h1 : e.1 == c
+      · simp only [h1, if_true, Option.some.injEq] at h; rw [← h]; exact (hall e he).2
+      · simp only [h1, Bool.false_eq_true, if_false] at h
+        by_cases h2 : e.2 == c
+        · simp only [h2, if_true, Option.some.injEq] at h; rw [← h]; exact (hall e he).1
+        · simp [h2] at h
+    obtain ⟨rc', hrc'⟩ := Option.isSome_iff_exists.mp hc'
+    refine ⟨rc', hrc', ?_⟩
+    rcases res_step m c c' rc rc' hn hrc hrc' with h | h
+    · rw [← h]; exact hwc.mono
+    · exact WalkLe.step hwc h
+
+
+/-- well-formed molecule: atom keys are distinct and every edge joins two atoms of the molecule -/
+def Mol.WF (m : Mol) : Prop :=
+  (m.atoms.map (·.1)).Nodup ∧ ∀ e ∈ m.edges, e.1 ∈ m.atoms.map (·.1) ∧ e.2 ∈ m.atoms.map (·.1)
+
+theorem resOf_of_mem (m : Mol) (hnd : (m.atoms.map (·.1)).Nodup) (x : Nat × Int × String) (hx : x ∈ m.atoms) :
+    m.resOf x.1 = some x.2 := by
+  unfold Mol.resOf
+  generalize m.atoms = l at hnd hx
+  induction l with
+  | nil => cases hx
+  | cons y ys ih =>
+    simp only [List.map_cons, List.nodup_cons] at hnd
+    rcases List.mem_cons.mp hx with h | h
+    · subst h; simp
+    · have hne : (y.1 == x.1) = false := by
+        rw [beq_eq_false_iff_ne]
+        intro heq
+        exact hnd.1 (heq ▸ List.mem_map.mpr ⟨x, h, rfl⟩)
+      simp only [List.find?_cons, hne]
+      exact ih hnd.2 h
+
+theorem resEdges_in_range (m : Mol) : ∀ e ∈ m.resEdges, e.1 ∈ List.range m.residues.length ∧ e.2 ∈ List.range m.residues.length := by
+  intro e he
+  unfold Mol.resEdges at he
+  obtain ⟨ae, _, h⟩ := List.mem_filterMap.mp he
+  cases h1 : m.resOf ae.1 with
+  | none => simp [h1] at h
+  | some r1 =>
+    cases h2 : m.resOf ae.2 with
+    | none => simp [h1, h2] at h
+    | some r2 =>
+      simp only [h1, h2] at h
+      by_cases hr : r1 == r2
+      · simp [hr] at h
+      · simp only [hr, Bool.false_eq_true, if_false, Option.some.injEq] at h
+        rw [← h]
+        exact ⟨List.mem_range.mpr (List.idxOf_lt_length_of_mem (resOf_mem_residues m _ _ h1)),
+               List.mem_range.mpr (List.idxOf_lt_length_of_mem (resOf_mem_residues m _ _ h2))⟩
+
+/-- **the gate is sound**: if all atoms of a (well-formed, non-empty) molecule are connected, so is its
+residue graph — `_check_molecules` never refuses a molecule whose atoms are all connected. -/
+theorem resConnected_of_atomConnected (m : Mol) (hwf : m.WF)
+    (h : isConnected (m.atoms.map (·.1)) m.edges = true) :
+    isConnected (List.range m.residues.length) m.resEdges = true := by
+  obtain ⟨hnd, hedges⟩ := hwf
+  obtain ⟨a, rest, hatoms, hreach⟩ := (isConnected_iff _ _ hedges).mp h
+  -- the first atom and its residue
+  cases hm : m.atoms with
+  | nil => rw [hm] at hatoms; cases hatoms
+  | cons x xs =>
+    have hax : a = x.1 := by rw [hm] at hatoms; simp only [List.map_cons, List.cons.injEq] at hatoms; exact hatoms.1.symm
+    have hxmem : x ∈ m.atoms := by rw [hm]; exact List.mem_cons_self
+    have hrx : m.resOf a = some x.2 := by rw [hax]; exact resOf_of_mem m hnd x hxmem
+    have hres : m.residues = x.2 :: (dedup (xs.map (·.2))).filter (fun y => !(y == x.2)) := by
+      unfold Mol.residues; rw [hm]; rfl
+    have hidx0 : m.residues.idxOf x.2 = 0 := by rw [hres]; exact List.idxOf_cons_self
+    have hlen : 0 < m.residues.length := by rw [hres]; simp
+    have hall : ∀ e ∈ m.edges, (m.resOf e.1).isSome ∧ (m.resOf e.2).isSome := by
+      intro e he
+      obtain ⟨h1, h2⟩ := hedges e he
+      obtain ⟨y1, hy1, hk1⟩ := List.mem_map.mp h1
+      obtain ⟨y2, hy2, hk2⟩ := List.mem_map.mp h2
+      exact ⟨by rw [← hk1, resOf_of_mem m hnd y1 hy1]; rfl, by rw [← hk2, resOf_of_mem m hnd y2 hy2]; rfl⟩
+    apply (isConnected_iff _ _ (resEdges_in_range m)).mpr
+    have hrange : List.range m.residues.length = 0 :: (List.range (m.residues.length - 1)).map (· + 1) := by
+      obtain ⟨n, hn⟩ : ∃ n, m.residues.length = n + 1 := ⟨m.residues.length - 1, by omega⟩
+      rw [hn, List.range_succ_eq_map]
+      simp
+    refine ⟨0, _, hrange, ?_⟩
+    intro i hi
+    have hi' : i < m.residues.length := List.mem_range.mp hi
+    -- an atom of residue i
+    have hrmem : m.residues[i] ∈ m.residues := List.getElem_mem hi'
+    have : m.residues[i] ∈ m.atoms.map (·.2) := by
+      unfold Mol.residues at hrmem; exact (mem_dedup _ _).mp hrmem
+    obtain ⟨y, hy, hyr⟩ := List.mem_map.mp this
+    obtain ⟨k, hk⟩ := hreach y.1 (List.mem_map.mpr ⟨y, hy, rfl⟩)
+    obtain ⟨rb, hrb, hwalk⟩ := res_walk_of_atom_walk m hall a y.1 k x.2 hrx hk
+    have : rb = m.residues[i] := by
+      rw [resOf_of_mem m hnd y hy] at hrb
+      rw [← hyr]; exact (Option.some.inj hrb).symm
+    have hnodup : m.residues.Nodup := by unfold Mol.residues; exact dedup_nodup _
+    rw [this, hidx0, List.Nodup.idxOf_getElem hnodup i hi'] at hwalk
+    exact ⟨k, hwalk⟩
+
+
+end PolyplyVerif.C10M
